@@ -1,6 +1,6 @@
 // C26: the B+ tree fast index never serves a stale value (model_checking).
 //
-// One oracle, three enumerations on the REAL code (tm2/pkg/bptree fast index under store/bptree.Store under
+// One oracle, four enumerations on the REAL code (tm2/pkg/bptree fast index under store/bptree.Store under
 // rootmulti):
 //
 //	a read served through the fast index == the authoritative tree at the version being read
@@ -20,6 +20,11 @@
 //	(c) schedules   committer thread vs reader thread(s) under every interleaving with <= bound preemptions
 //	                (scheduling points: every DB operation and every sync/atomic operation of rootmulti, bptree,
 //	                store/cache), see sched.go
+//	(d) value sizes the SIZE of the written value as a dimension of the write alphabet (0 B .. 4 MiB+1, at and around
+//	                every size-dependent constant of bptree / store/bptree): every ordered pair of writes (small->large,
+//	                large->small, large->large, delete after large, ...) followed by restart, index off, index on
+//	                (rebuild) and one more overwrite; same-block overwrites; triples; every op sequence to depth 4 with
+//	                a 64 KiB+1 write in the alphabet; see sizes.go.  Values are compared by length + SHA-256.
 package main
 
 import (
@@ -35,7 +40,7 @@ import (
 
 func main() {
 	worker := flag.String("worker", "", "internal: schedule worker scenario:bound:budgetSeconds")
-	part := flag.String("part", "abc", "which enumerations to run (subset of abc)")
+	part := flag.String("part", "abcd", "which enumerations to run (subset of abcd)")
 	prof := flag.String("cpuprofile", "", "internal: write a CPU profile")
 	r := vk.New("model_checking")
 	gcp := 400
@@ -108,6 +113,36 @@ func main() {
 			"wall_s":            time.Since(t0).Seconds()}
 	}
 
+	// (d) before (a) for the same reason
+	if has('d') {
+		t0 := time.Now()
+		col := &collector{}
+		cn := &counters{}
+		// MiB-sized garbage: a small GC percent lets the allocator reuse already-faulted spans (3-4x less CPU than 400 here)
+		if os.Getenv("VERIF_GOGC") == "" {
+			debug.SetGCPercent(25)
+		}
+		sum, dcov := sizeHistories(r, col, cn)
+		debug.SetGCPercent(gcp)
+		col.report(r, "d")
+		r.EvalN(cn.transitions.Load())
+		states += cn.states.Load()
+		transitions += cn.transitions.Load()
+		r.OutcomeN("d:histories(value-size dimension)", cn.histories.Load())
+		r.OutcomeN("d:size-pairs", sum.pairs)
+		r.OutcomeN("d:full-version-checks", cn.fullChecks.Load())
+		r.OutcomeN("d:reads-compared", cn.reads.Load())
+		dcov["histories"] = cn.histories.Load()
+		dcov["checked_steps"] = cn.transitions.Load()
+		dcov["distinct_states"] = cn.states.Load()
+		dcov["reads_compared"] = cn.reads.Load()
+		dcov["version_views"] = cn.views.Load()
+		dcov["complete"] = !r.Capped()
+		dcov["wall_s"] = time.Since(t0).Seconds()
+		cov["d_value_sizes"] = dcov
+		r.Sample(map[string]any{"part": "d", "history": "Sa:1 C Sa:65537 C R T T Sa:1 C  (small value indexed, overwritten by a 64 KiB+1 value; restart; index off; index on = rebuild; small again)"})
+	}
+
 	if has('a') {
 		depth := 6
 		cfgs := []cfg{
@@ -142,7 +177,7 @@ func main() {
 				if r.Expired() {
 					break
 				}
-				histories(r, c, d, col, cn)
+				histories(r, c, d, col, cn, opsA)
 			}
 			if !r.Capped() {
 				doneDepth = d
@@ -194,7 +229,8 @@ func main() {
 	}
 
 	r.Assumptions = []string{
-		"small scope: 3 keys (a,b written by histories; c written once by the prefill), fresh value per write, <= 8 ops per history",
+		"small scope: 3 keys (a,b written by histories; c written once by the prefill), fresh value per write, <= 8 ops per history; (a)-(c) write 3..4-byte values, the value-size dimension is explored by (d) on key a only",
+		"(d): sizes come from a finite menu (coverage.d_value_sizes.*_menu); sizes >= 1 MiB are paired with {1 B, same family, delete} only and live in one configuration (index on, keep all versions, prefilled) in the quick tier; values above 64 bytes are compared by length + SHA-256",
 		"crashdb models a backend whose Batch.Write is atomic (true of every backend built into gno.land); a crash loses everything not yet written",
 		"parameter scaling: bptree.fastRebuildFlush 65536 -> 2 so that index clears/rebuilds span several chunk commits with 3 keys",
 		"in the quick tier the per-version comparison runs after every Commit/restart/toggle step (the steps that can change a view); live-store reads are compared after every step; thorough compares everything after every step",
@@ -206,7 +242,7 @@ func main() {
 	cov["traces_validated_against_impl"] = transitions
 	exh := !r.Capped()
 	stopProf()
-	r.Finish("every op sequence up to the depth per configuration; every physical-write-log prefix of every history up to depth 4 (two wirings); every schedule with <= bound preemptions per scenario; distinct = distinct (DB bytes, working set, index flag) states + distinct schedule observations",
+	r.Finish("every op sequence up to the depth per configuration; every ordered pair of value sizes of the size menu (+ same-block, triple and depth-4 histories with sized writes); every physical-write-log prefix of every history up to depth 4 (two wirings); every schedule with <= bound preemptions per scenario; distinct = distinct (DB bytes, working set, index flag) states + distinct schedule observations",
 		exh, cov)
 }
 
